@@ -442,11 +442,15 @@ def run(rep):
             jobs.append((c18.multicell_shard, (rule, sign, 3)))
         jobs.append((c18.multicell_shard, (rule, "hebbian", 3, -0.5)))  # negative scale: its absolute value is used, parts stay >= 0
     # two cells ending on one neuron group with different pre-side rates: each cell's split follows its own rule
-    for kind in ("stdp", "mstdp", "mstdpet"):
+    for kind in ("stdp", "triplet", "mstdp", "mstdpet"):
         jobs.append((c08.shared_neuron_shard, (kind, "cumulative", 3)))
     for rule in ("da-stdp", "da-stdpd", "da-mstdp", "da-mstdpd", "da-kernel", "da-kerneld"):
         for sign in c18.SIGNS:
             jobs.append((c18.shard, (rule, "dense", (1, 1), T1, 1.0, sign, "const")))
+    # kernel keyword arguments given as tensors (kept in per-cell buffers): the split follows each kernel's own arguments
+    for rule in ("da-kernel-t", "da-kerneld-t"):
+        for sign in c18.SIGNS:
+            jobs.append((c18.shard, (rule, "dense", (1, 1), T1 - 1, 1.0, sign, "const")))
     for sign in c18.SIGNS:
         jobs.append((kernel_shard, ("dense", (1, 1), T1 + 1, 1.0, sign)))
         jobs.append((kernel_shard, ("dense", (2, 2), 2, 1.0, sign)))
